@@ -16,7 +16,65 @@ MODULES = {
 }
 
 
+CRASH_SIGNALS = {"SIGABRT", "SIGSEGV", "SIGBUS", "SIGFPE", "SIGILL"}
+
+
+def supervise(argv):
+    """Run the check in a child process.  The library's compiled kernels (numba) can corrupt memory when a change makes them
+    index out of bounds: the interpreter then dies on a signal and could report nothing.  A child killed by a memory-error
+    signal while exercising the library is reported as a violation (the computation did not deliver its result); any other
+    abnormal end is a machinery failure."""
+    import json
+    import signal
+    import subprocess
+    import time
+    from .common import EVIDENCE, REPLAYS, seed
+    t0 = time.time()
+    crumb = f"/var/tmp/pgverif-crumb-{os.getpid()}"
+    env = dict(os.environ, PGVERIF_CHILD="1", PGVERIF_BREADCRUMB=crumb)
+    p = subprocess.Popen([sys.executable, "-W", "ignore", "-m", "pgverif.check"] + argv, env=env)
+    try:
+        rc = p.wait()
+    except KeyboardInterrupt:
+        p.kill()
+        raise
+    last = ""
+    try:
+        last = open(crumb).read()
+        os.unlink(crumb)
+    except OSError:
+        pass
+    if rc >= 0:
+        return rc
+    try:
+        name = signal.Signals(-rc).name
+    except ValueError:
+        name = str(-rc)
+    pid = next((a.upper() for a in argv if not a.startswith("-")), "?")
+    tier = argv[argv.index("--tier") + 1] if "--tier" in argv else os.environ.get("VERIF_TIER", "quick")
+    if name not in CRASH_SIGNALS or "--replay" in argv:
+        print(f"MACHINERY-FAILURE property={pid}: the check process ended on signal {name}")
+        return 2
+    REPLAYS.mkdir(exist_ok=True)
+    path = REPLAYS / f"{pid}-crash.json"
+    detail = {"signal": name, "tier": tier, "seed": seed(), "last_progress_marker": last,
+              "what": "the interpreter running the library was killed by a memory-error signal while the check exercised it "
+                      "(compiled kernels indexing out of bounds); re-run the check to reproduce"}
+    path.write_text(json.dumps({"property": pid, "key": "process.crashed", "detail": detail}, indent=1) + "\n")
+    EVIDENCE.mkdir(exist_ok=True)
+    (EVIDENCE / f"{pid}.json").write_text(json.dumps({
+        "property_id": pid, "tier": tier, "seed": seed(), "level": "model_checking",
+        "coverage": {"states": 0, "transitions": 0, "traces_validated_against_impl": 0, "evaluations": 0, "distinct_nontrivial": 0,
+                     "rule": "the run was cut short: the library crashed the interpreter", "samples": [detail]},
+        "assumptions": [], "wall_s": round(time.time() - t0, 2), "violations": 1}, indent=1) + "\n")
+    print(f"VIOLATION property={pid} replay={path}  # process.crashed: {json.dumps(detail)[:300]}")
+    print(f"{pid}: 1 violation(s)")
+    return 1
+
+
 def main():
+    if os.environ.get("PGVERIF_CHILD") != "1":
+        return supervise(sys.argv[1:])
     ap = argparse.ArgumentParser()
     ap.add_argument("property")
     ap.add_argument("--tier", default=os.environ.get("VERIF_TIER", "quick"), choices=["quick", "thorough"])
